@@ -1,3 +1,5 @@
+//go:build !verif
+
 // Copyright 2024 Kelvin Clement Mwinuka
 //
 // Licensed under the Apache License, Version 2.0 (the "License");
